@@ -89,6 +89,13 @@ pub struct DeCase {
     /// `deserialize_struct` (serde's flatten machinery and hint-driven formats)
     #[serde(default)]
     pub honour_fields: bool,
+    /// what the format's `is_human_readable()` reports
+    #[serde(default = "yes")]
+    pub human_readable: bool,
+}
+
+fn yes() -> bool {
+    true
 }
 
 /// How a record is handed to the visitor.
@@ -99,22 +106,24 @@ pub struct Delivery {
     pub strict_end: bool,
     pub fault: Option<CallFault>,
     pub honour_fields: bool,
+    pub human_readable: bool,
 }
 
 impl Delivery {
     pub fn clean(mode: Mode) -> Self {
-        Delivery { mode, hint: Hint::Exact, strict_end: true, fault: None, honour_fields: false }
+        Delivery { mode, hint: Hint::Exact, strict_end: true, fault: None, honour_fields: false, human_readable: true }
     }
     fn run<'de>(&self, entries: &'de [Entry]) -> DeRun<'de> {
         let mut run = DeRun::new(entries, self.mode, self.hint, self.strict_end, self.fault);
         run.honour_fields = self.honour_fields;
+        run.human_readable = self.human_readable;
         run
     }
 }
 
 impl DeCase {
     pub fn delivery(&self) -> Delivery {
-        Delivery { mode: self.mode, hint: self.hint, strict_end: self.strict_end, fault: self.access_fault, honour_fields: self.honour_fields }
+        Delivery { mode: self.mode, hint: self.hint, strict_end: self.strict_end, fault: self.access_fault, honour_fields: self.honour_fields, human_readable: self.human_readable }
     }
 }
 
@@ -468,6 +477,7 @@ pub fn execute(c: &DeCase) -> LegReport {
     if c.honour_fields {
         rep.probes.hit("de_format_honours_fields_hint");
     }
+    rep.probes.hit(if c.human_readable { "de_format_human_readable" } else { "de_format_binary" });
     let expect = model(&entries, &dl);
 
     // model cross-check: hand model vs serde derive, where both are defined
@@ -619,7 +629,7 @@ pub fn execute(c: &DeCase) -> LegReport {
         let clean = DeCase { faults: vec![], access_fault: None, kinds: vec![KeyKind::Str], ..c.clone() };
         if clean.mode != Mode::Scalar {
             let es = derive_stream(&clean);
-            match run_twofloat(&es, &Delivery { honour_fields: c.honour_fields, ..Delivery::clean(clean.mode) }) {
+            match run_twofloat(&es, &Delivery { honour_fields: c.honour_fields, human_readable: c.human_readable, ..Delivery::clean(clean.mode) }) {
                 Ok(DeOutcome { result: Ok((h, l)), .. }) if h == c.hi && l == c.lo => rep.probes.hit("recovery_ok"),
                 Ok(o) => rep.violations.push(viol(
                     "RECOVERY_FAILED",
@@ -753,14 +763,14 @@ pub fn generate(r: &mut Rng, hi: u64, lo: u64, other: (u64, u64)) -> DeCase {
     };
     let strict_end = r.chance(2, 3);
     let honour_fields = mode == Mode::Map && r.chance(1, 5);
-    let mut c = DeCase { hi, lo, mode, lo_first, kinds, faults: vec![], hint, strict_end, access_fault: None, honour_fields };
+    let mut c = DeCase { hi, lo, mode, lo_first, kinds, faults: vec![], hint, strict_end, access_fault: None, honour_fields, human_readable: !r.chance(1, 4) };
     if r.chance(35, 100) {
         return c; // fault-free delivery
     }
     // swarm: each run enables a random subset of fault families
     let fam_struct = r.bool();
     let fam_word = r.bool();
-    let fam_access = r.bool();
+    let fam_access = r.chance(1, 3);
     let fam_type = r.chance(1, 4);
     let (fam_struct, fam_word) = if !fam_struct && !fam_word && !fam_access && !fam_type { (true, true) } else { (fam_struct, fam_word) };
     let (e_hi, e_lo) = if c.lo_first && c.mode == Mode::Map { (1usize, 0usize) } else { (0, 1) };
@@ -839,6 +849,7 @@ pub fn shrink(c: &DeCase) -> Vec<DeCase> {
     push(DeCase { kinds: vec![KeyKind::Str], ..c.clone() });
     push(DeCase { lo_first: false, ..c.clone() });
     push(DeCase { honour_fields: false, ..c.clone() });
+    push(DeCase { human_readable: true, ..c.clone() });
     // shrink fault parameters
     for (i, f) in c.faults.iter().enumerate() {
         let mut alts: Vec<StorageFault> = Vec::new();
